@@ -156,12 +156,13 @@ def name_expect(raw):
 
 
 def pdu_shape(pdu):
-    """code-independent shape of a PDU for signatures: does it hold a 16-bit service data
-    structure too short for its UUID, is the AD region well formed"""
-    ad = pdu[8:]
-    structs, wf = ble.parse_ad(ad)
-    short = any(t == ble.AD_SERVICE_DATA16 and len(d) < 2 for t, d in structs)
-    return {"svc16": "short" if short else "other", "wf": "yes" if wf else "no"}
+    """code-independent shape of a CRC-checked PDU for signatures"""
+    if pdu[1] < 6:
+        return "shorter-than-address"
+    structs, wf = ble.parse_ad(pdu[8:])
+    if any(t == ble.AD_SERVICE_DATA16 and len(d) < 2 for t, d in structs):
+        return "service-data-shorter-than-uuid"
+    return "well-formed-ad" if wf else "malformed-ad"
 
 
 def is_instance_of(obj, clsname):
@@ -279,12 +280,9 @@ def exec_raw(cache, seed, hops, payload, feats_extra=None):
     b.inject(payload)
     exc, av, els = b.poll()
     feats = {"ch": b.ch}
-    feats.update(feats_extra or {})
-    if pdu is not None:
-        feats.update(pdu_shape(pdu))
     fails = []
     if exc:
-        fails.append(("exception:" + exc, "%s for received payload %s (PDU %s, CRC %s)"
+        fails.append(("exception:%s:%s" % (exc, pdu_shape(pdu) if pdu is not None else "no-pdu"), "%s for received payload %s (PDU %s, CRC %s)"
                       % (exc, bytes(payload).hex(), pdu.hex() if pdu else None, "ok" if ok else "bad"), feats))
         return fails, "raises:" + exc
     short = ok and pdu[1] < 6  # CRC-valid but shorter than an address: nothing is promised either way
@@ -351,6 +349,7 @@ def exec_adv(cache, seed, case):
     name_arg, name_raw = K.name_value(nkind, nlen, seed)
     pa = case["pa"]
     ref_chunks, lib_chunks, feats = build_items(case["items"], seed)
+    feats = {}
     feats.update({"tx": tx, "ch": b.ch, "name": "none" if name_raw is None else "set", "pa": "none" if pa is None else "set"})
     item0 = case["items"][0][0] if case["items"] else "none"
     opt = b""
@@ -379,7 +378,7 @@ def exec_adv(cache, seed, case):
     pdu, ok = ble.decode(payload, b.ch)
     exc, av, els = b.poll()
     if exc:
-        fails.append(("exception:" + exc, "%s while receiving %r" % (exc, case), feats))
+        fails.append(("exception:%s:%s" % (exc, pdu_shape(pdu) if pdu is not None else "no-pdu"), "%s while receiving %r" % (exc, case), feats))
         return fails, "raises:" + exc
     if not ok:
         fails.append(("tx-malformed", "the transmitting FakeBLE produced an invalid packet %s" % bytes(payload).hex(), feats))
@@ -443,8 +442,6 @@ def run_cases(part, item_key, cases, seed, rep):
         for clause, what, feats in fails:
             K.stash(rep, item_key, clause, feats, what, {"part": part, "case": case, "seed": seed},
                     size=len(repr(case)))
-    if cases and len(rep.samples) < 1:
-        rep.sample({"part": part, "case": cases[len(cases) // 2]})
 
 
 # --------------------------------------------------------------------------- domains
@@ -594,8 +591,7 @@ def dom_corrupt(tier, seed):
         for base in (short, full):
             cases += [dict(kind="raw", hops=hops, payload=flip(base, (k,)), feats={"corrupt": "1bit"}) for k in range(256)]
         if tier == "thorough":
-            pairs_s = pairs_f = list(itertools.combinations(range(256), 2)) if hops == 0 else \
-                [(a, b) for a in range(0, 32) for b in range(a + 1, 256)]
+            pairs_s = pairs_f = list(itertools.combinations(range(256), 2))
         else:
             pairs_s = list(itertools.combinations(range(region), 2)) if hops == 0 else \
                 [(a, b) for a in range(8, 16) for b in range(region) if b != a]
@@ -663,8 +659,8 @@ def dom_adversarial(tier, seed):
 
 def dom_random(tier, seed):
     """seed-derived arbitrary payloads, and arbitrary PDU contents under a valid CRC"""
-    n_any = 3000 if tier == "quick" else 30000
-    n_valid = 6000 if tier == "quick" else 60000
+    n_any = 3000 if tier == "quick" else 60000
+    n_valid = 6000 if tier == "quick" else 120000
     cases = []
     for i in range(n_any):
         cases.append(dict(kind="raw", hops=i % 3, payload=rnd_bytes(32, seed, 5000 + i), feats={"src": "any"}))
@@ -806,6 +802,14 @@ def run(tier, seed, rep, only=None):
     items.sort(key=lambda it: -(len(it[2]) if it[0] != "queue" else 4 ** (it[3] - 2) * 4))
     pmap(work, items, rep)
     K.collapse(rep, PID)
+    del rep.samples[:]  # written-out cases chosen here, not by whichever worker finishes first
+    for name in ("temperature", "url", "adversarial", "corrupt", "fields", "queue"):
+        its = sorted((it for it in items if it[0] == name), key=lambda it: it[1])
+        if its and name != "queue":
+            cases = its[len(its) // 2][2]
+            rep.sample({"part": name, "case": cases[len(cases) // 2]})
+        elif its:
+            rep.sample({"part": name, "ops": list(its[len(its) // 2][2][0]) + ["available", "read", "read", "rx-valid"][:its[0][3] - 2]})
     rep.states += len(rep.nontrivial)
     return dict(
         level="model_checking",
@@ -822,7 +826,8 @@ def run(tier, seed, rep, only=None):
         bounds=dict(cases=counts, queue_depth=6 if tier == "quick" else 8, channels=[2, 26, 80]),
         trusted_base=["vf/sim.py (nRF24L01+ behavioural model: legacy ShockBurst reception into a 3-level RX FIFO, ghost transmitter)",
                       "vf/ref/ble.py (bit-serial BLE link layer, AD parser, GATT/Eddystone service data codecs; self-checked at start)"],
-        assumptions=["bytes captured after the CRC are seed-derived", "temperature exponent fixed at -2 (the documented 0.01 resolution)",
+        assumptions=["bytes captured after the CRC are seed-derived",
+                     "the 'random' part is a finite seed-derived list of payloads (not all 2^256); MAC / name / raw bytes are seed-derived", "temperature exponent fixed at -2 (the documented 0.01 resolution)",
                      "CRC-valid packets shorter than an address (length octet < 6) may be queued or ignored but must not raise",
                      "getters of decoded elements are only exercised for well-formed structures", "CPython 3.12 only"],
         min_outcomes=12,
